@@ -306,10 +306,11 @@ def mon_c04(cap, key, rp):
         if not common.close(headline, by_sum, rel=1e-9):
             vs.append(violation("headline_is_worst_month_of_breakdown", k, "%s round %d: headline %.9g, worst month of the summed breakdown %.9g" % (key["iso3"], ri + 1, headline, by_sum), rp))
         # the rounded percent attributes differ from the unrounded series only by the documented rounding
-        for n, dec in (("stored_food", 3), ("outdoor_crops", 3), ("immediate_outdoor_crops", 1), ("new_stored_outdoor_crops", 3)):
+        for n, dec in (("stored_food", 3), ("outdoor_crops", 3), ("immediate_outdoor_crops", 1), ("new_stored_outdoor_crops", 3), ("seaweed", 3),
+                       ("cell_sugar", 9), ("scp", 9), ("greenhouse", 9), ("fish", 9), ("meat", 9), ("milk", 9)):
             a = np.asarray(getattr(interp, n).kcals, dtype=float)
-            ref = {"stored_food": got["stored_food"], "outdoor_crops": imm + new, "immediate_outdoor_crops": imm, "new_stored_outdoor_crops": new}[n] / KD * 100.0
-            if (np.abs(a - ref) > 0.5 * 10 ** -dec + 1e-9).any():
+            ref = {"outdoor_crops": imm + new, "immediate_outdoor_crops": imm, "new_stored_outdoor_crops": new}.get(n, got.get(n)) / KD * 100.0
+            if (np.abs(a - ref) > 0.5 * 10 ** -dec + 1e-9 * np.maximum(1.0, np.abs(ref))).any():
                 vs.append(violation("percent_series_match_breakdown", dict(k, food=n), "%s round %d: %s percent series deviates from the breakdown by more than its rounding" % (key["iso3"], ri + 1, n), rp))
         # 0.01 % of the optimum, plus 1e-6 percentage points: the solver's primal tolerance (1e-7) on a near-zero optimum
         if lp["kind"] == "h" and abs(headline - lp["obj"]) > 1e-4 * abs(lp["obj"]) + 1e-6:
@@ -527,13 +528,16 @@ def mon_c16(cap, key, rp):
     return vs
 
 
-def run_job(job):
+def run_job(job, chain_tags=None):
     iso, pn, tag, opts = job
     want = run_job.want
     t0 = time.time()
     title = "v_%s_%s_%s" % (pn, iso, common.digest(tag))
     key = {"iso3": iso, "preset": pn, "deviation": tag, "case": "%s|%s|%s" % (iso, pn, tag)}
     rp = {"iso3": iso, "preset": pn, "deviation": tag, "opts": options.clean(opts)}
+    if chain_tags:
+        # this run follows, in the same process, the runs of the same country and preset under these deviations (in this order)
+        rp["chain_tags"] = list(chain_tags)
     out = {p: [] for p in PIDS}
     st = {"key": key, "t": 0, "lp": 0}
     try:
@@ -587,6 +591,51 @@ THOROUGH_L2 = ("ms_example_resilient", "ms_worst")
 L2_COUNTRIES = ("USA", "IND", "LUX", "ARG", "NGA", "JPN")
 
 
+def run_unit(unit):
+    """a unit of the plan is one run, or a CHAIN: the preset's default run followed by every single deviation of it for one country,
+    executed one after the other in ONE process, so that anything the code remembers per country across scenarios (a memo keyed
+    without one of the options, a table modified in place) reaches the per-run monitors of every property"""
+    if unit[0] != "CHAIN":
+        return [run_job(unit)]
+    out, tags = [], []
+    for job in unit[1]:
+        out.append(run_job(job, chain_tags=tags))
+        tags.append(job[2])
+    return out
+
+
+def chain_of(iso, pn, base):
+    return ("CHAIN", [(iso, pn, "default", base)] + [(iso, pn, tag, o) for tag, o in options.single_deviations(base)])
+
+
+def l1_countries(isos, seed):
+    """countries that get the deviation layer in the quick tier: one per data-shape class (rotated inside the class by the seed)
+    plus two rotated over the rest; the classes are computed from the shipped table, nothing is named by hand"""
+    rows = supplies._S["rows"]
+
+    def f(i, k):
+        return float(rows[i][k])
+    classes = [
+        ("population below 1 million with feed or biofuel demand", [i for i in isos if f(i, "population") < 1e6 and f(i, "feed_kcals") + f(i, "biofuel_kcals") > 0]),
+        ("population between 1 and 10 million", [i for i in isos if 1e6 <= f(i, "population") < 1e7]),
+        ("no seaweed potential (landlocked or no data)", [i for i in isos if f(i, "initial_seaweed_fraction") == 0]),
+        ("no cropland", [i for i in isos if f(i, "crop_area_1000ha") == 0]),
+        ("largest seaweed potential (top 12)", sorted(isos, key=lambda i: -f(i, "initial_seaweed_fraction"))[:12]),
+        ("biofuel demand above feed demand", [i for i in isos if f(i, "biofuel_kcals") > f(i, "feed_kcals")]),
+    ]
+    sel, why = [], {}
+    for name, members in classes:
+        members = [i for i in members if i not in sel]
+        if members:
+            pick = common.rotate(members, seed, 1)[0]
+            sel.append(pick)
+            why[pick] = name
+    for pick in common.rotate([i for i in isos if i not in sel], seed, 2):
+        sel.append(pick)
+        why[pick] = "rotated over the remaining countries"
+    return sel, why
+
+
 def rare_paths():
     with open(os.path.join(common.VERIF, "mc", "rare_paths.json")) as f:
         return json.load(f)["runs"]
@@ -603,15 +652,13 @@ def plan(tier, seed):
                 jobs.append((iso, pn, "default", options.preset(pn)))
         jobs.append(("WOR", "g_example_resilient", "default", options.preset("g_example_resilient")))
         jobs.append(("WOR", "g_worst", "default", options.preset("g_worst")))
-        rest = [i for i in isos if i not in small and i not in landlocked]
-        sel = [common.rotate(small, seed, 1)[0], common.rotate(landlocked, seed, 1)[0]] + common.rotate(rest, seed, 2)
+        sel, why = l1_countries(isos, seed)
         for pn in QUICK_L1:
             base = options.preset(pn)
             for iso in sel:
-                for tag, o in options.single_deviations(base):
-                    jobs.append((iso, pn, tag, o))
+                jobs.append(chain_of(iso, pn, base))
         rare = rare_paths()
-        have = {(j[0], j[1], j[2]) for j in jobs}
+        have = {(j[0], j[1], j[2]) for u in jobs for j in (u[1] if u[0] == "CHAIN" else [u])}
         for r in rare:
             o = options.preset(r["preset"])
             o.update(r["dev"])
@@ -619,7 +666,8 @@ def plan(tier, seed):
             if (r["iso3"], r["preset"], tag) not in have:
                 jobs.append((r["iso3"], r["preset"], tag, o))
         bound = {"layer0": "%d presets x all %d countries + 2 world presets" % (len(QUICK_L0), len(isos)),
-                 "layer1": "every single deviation (%d) of %s on %s" % (len(options.single_deviations(options.preset(QUICK_L1[0]))), list(QUICK_L1), sel),
+                 "layer1": "every single deviation (%d) of %s on %s, as one chain per (country, preset) in one process (default run first)" % (
+                     len(options.single_deviations(options.preset(QUICK_L1[0]))), list(QUICK_L1), ["%s: %s" % (i, why[i]) for i in sel]),
                  "rare_paths": "%d fixed runs that the thorough grid showed to take rare controller paths (mc/rare_paths.json)" % len(rare)}
     else:
         for pn in options.PRESETS:
@@ -633,15 +681,14 @@ def plan(tier, seed):
         for pn in THOROUGH_L1:
             base = options.preset(pn)
             for iso in isos:
-                for tag, o in options.single_deviations(base):
-                    jobs.append((iso, pn, tag, o))
+                jobs.append(chain_of(iso, pn, base))
         for pn in THOROUGH_L2:
             base = options.preset(pn)
             for iso in L2_COUNTRIES:
                 for tag, o in options.pair_deviations(base):
                     jobs.append((iso, pn, tag, o))
         bound = {"layer0": "all %d country presets x all %d countries + %d world presets" % (len(options.PRESETS), len(isos), len(options.GLOBAL_PRESETS)),
-                 "layer1": "every single deviation of %s on all countries; of every world preset on the world" % list(THOROUGH_L1),
+                 "layer1": "every single deviation of %s on all countries, as one chain per (country, preset) in one process (default run first); of every world preset on the world" % list(THOROUGH_L1),
                  "layer2": "every pair of deviations in different families of %s on %s" % (list(THOROUGH_L2), list(L2_COUNTRIES))}
     return jobs, bound
 
@@ -690,8 +737,12 @@ def explore(tier, seed):
         t0 = time.time()
         supplies.init()
         jobs, bound = plan(tier, seed)
-        res = common.pmap(run_job, jobs, init_fn=init, chunksize=1)
-        data = {"at": time.strftime("%Y-%m-%dT%H:%M:%SZ", time.gmtime()), "bound": bound, "n_jobs": len(jobs),
+        # longest units first (chains), so that the pool does not end on one long chain
+        units = sorted(jobs, key=lambda u: -(len(u[1]) if u[0] == "CHAIN" else 1))
+        res = [r for unit_res in common.pmap(run_unit, units, init_fn=init, chunksize=1) for r in unit_res]
+        n_runs = sum(len(u[1]) if u[0] == "CHAIN" else 1 for u in jobs)
+        bound = dict(bound, chains=sum(1 for u in jobs if u[0] == "CHAIN"))
+        data = {"at": time.strftime("%Y-%m-%dT%H:%M:%SZ", time.gmtime()), "bound": bound, "n_jobs": n_runs,
                 "violations": {p: [] for p in PIDS}, "stats": [], "key": key}
         for out, st in res:
             for p in PIDS:
@@ -750,6 +801,12 @@ def run_property(pid, tier, seed, oracle, assumptions=()):
 def replay(pid, rp):
     init()
     run_job.want = PIDS
+    if rp.get("chain_tags"):
+        base = options.preset(rp["preset"])
+        devs = dict(options.single_deviations(base))
+        devs["default"] = base
+        for t in rp["chain_tags"]:
+            run_job((rp["iso3"], rp["preset"], t, devs[t]))        # the same history, in the same process
     out, st = run_job((rp["iso3"], rp["preset"], rp["deviation"], rp["opts"]))
     if st.get("harness_error"):
         raise RuntimeError(st["harness_error"])
